@@ -493,6 +493,12 @@ func appendUnseenSampledPoints(path b6.Geometry, distanceMeters float64, seen ma
 
 // Return a path formed from the points of the two given paths, in the order they occur in those paths.
 func join(context *api.Context, pathA b6.Geometry, pathB b6.Geometry) (b6.Geometry, error) {
+	if _, err := polylineOf("join", pathA); err != nil {
+		return nil, err
+	}
+	if _, err := polylineOf("join", pathB); err != nil {
+		return nil, err
+	}
 	points := make([]s2.Point, 0, pathA.GeometryLen()+pathB.GeometryLen())
 	i := 0
 	for i < pathA.GeometryLen() {
